@@ -321,7 +321,7 @@ func (c *Ctx) execIf(st *State, x *ast.IfStmt) outcome {
 		elseSt = st
 		elseSt.assume(c, Not(cond))
 	}
-	if pe := c.pathMode; pe != nil && pe.depth == c.inlineDepth && pe.loopDepth == c.loopDepth {
+	if pe := c.pathMode; pe != nil && pe.depth == c.inlineDepth && pe.loopDepth == c.loopDepth && (pe.eligible == nil || pe.eligible[x]) {
 		// split-paths: follow exactly one branch in this run (the other one is taken by another run)
 		if pe.next() {
 			if thenSt.dead() {
@@ -359,6 +359,10 @@ func (c *Ctx) execBodyPaths(iter *State, lp loopParts, ls *LoopSpec, ord int, ha
 			unsupp("split-paths: more than 64 paths through the body of loop %d", ord)
 		}
 		pe := &pathEnum{choices: append([]bool{}, prefix...), depth: c.inlineDepth, loopDepth: c.loopDepth}
+		if ls.SplitTail {
+			pe.eligible = map[*ast.IfStmt]bool{}
+			tailIfs(lp.body, pe.eligible)
+		}
 		c.pathMode = pe
 		bo := c.execBlock(iter.clone(), lp.body)
 		c.pathMode = nil
@@ -424,6 +428,45 @@ type pathEnum struct {
 	pos       int
 	depth     int // inline depth of the loop (ifs of inlined callees are not split)
 	loopDepth int // loop nesting depth of the body (ifs inside nested loops are not split)
+	eligible  map[*ast.IfStmt]bool // split-tail: only these if statements are split (nil: all)
+}
+
+// tailIfs collects the if statements of a statement list that are in tail position, or one of whose branches ends in
+// a jump (continue / break / return); recursively inside such branches.
+func tailIfs(list []ast.Stmt, out map[*ast.IfStmt]bool) {
+	endsInJump := func(b *ast.BlockStmt) bool {
+		if b == nil || len(b.List) == 0 {
+			return false
+		}
+		switch b.List[len(b.List)-1].(type) {
+		case *ast.BranchStmt, *ast.ReturnStmt:
+			return true
+		}
+		return false
+	}
+	for i, s := range list {
+		ifs, ok := s.(*ast.IfStmt)
+		if !ok {
+			continue
+		}
+		last := i == len(list)-1
+		var elseBlock *ast.BlockStmt
+		if eb, ok := ifs.Else.(*ast.BlockStmt); ok {
+			elseBlock = eb
+		}
+		if last || endsInJump(ifs.Body) || endsInJump(elseBlock) {
+			out[ifs] = true
+			if last || endsInJump(ifs.Body) {
+				tailIfs(ifs.Body.List, out)
+			}
+			if elseBlock != nil && (last || endsInJump(elseBlock)) {
+				tailIfs(elseBlock.List, out)
+			}
+			if ei, ok := ifs.Else.(*ast.IfStmt); ok && last {
+				tailIfs([]ast.Stmt{ei}, out)
+			}
+		}
+	}
 }
 
 func (pe *pathEnum) next() bool {
